@@ -1,5 +1,6 @@
 """Compiles nodes from the parser into Python code."""
 
+import math
 import typing as t
 from contextlib import contextmanager
 from functools import update_wrapper
@@ -127,7 +128,18 @@ def has_safe_repr(value: t.Any) -> bool:
     if value is None or value is NotImplemented or value is Ellipsis:
         return True
 
-    if type(value) in {bool, int, float, complex, range, str, Markup}:
+    if type(value) is float:
+        # repr is "inf" / "nan", which are names, not literals
+        return math.isfinite(value)
+
+    if type(value) is complex:
+        return math.isfinite(value.real) and math.isfinite(value.imag)
+
+    if type(value) is int:
+        # stay below the int -> str conversion limit of the interpreter
+        return value.bit_length() < 10_000
+
+    if type(value) in {bool, range, str, Markup}:
         return True
 
     if type(value) in {tuple, list, set, frozenset}:
@@ -1700,6 +1712,9 @@ class CodeGenerator(NodeVisitor):
     def visit_Const(self, node: nodes.Const, frame: Frame) -> None:
         val = node.as_const(frame.eval_ctx)
         text = str(val) if isinstance(val, float) else repr(val)
+        if isinstance(val, float) and not math.isfinite(val):
+            # a float literal that overflowed in the lexer ("1e999")
+            text = f"float({text!r})"
         # a negative number is a unary expression in Python: keep it one
         # operand wherever it is written ((-3) ** x, not -3 ** x)
         if text.startswith("-"):
